@@ -452,7 +452,7 @@ func (Engine) Run(c *simkit.Choices, x *simkit.Ctx) *simkit.Violation {
 				}
 			}
 			alone := render(o.run(func() {}))
-			if strings.HasPrefix(conc[t][i], "PANIC ") {
+			if strings.HasPrefix(conc[t][i], "PANIC ") && alone != conc[t][i] {
 				return &simkit.Violation{Kind: "panic", Site: o.desc.Kind, Detail: fmt.Sprintf("task %d op %d under contention: %s (alone: %s)", t, i, conc[t][i], trunc(alone, 200)), Scenario: sc}
 			}
 			if alone != conc[t][i] {
